@@ -2,7 +2,29 @@
     Property theorems only.  Model: Model/Hungarian.v ([lsa_fuel]/[lsa] = linear_sum_assignment(cost,
     return_cost=True) on finite integer matrices: the _Hungary state machine _step1 .. _step6 with numpy's scan
     orders, the driver loop on fuel, the transposition of tall matrices; [lsa_in] = the same behind the input
-    validation).  Specification: Proofs/HungarianCert.v ([lsa_spec], [complete], [cost]). *)
+    validation).  Specification: Proofs/HungarianCert.v ([lsa_spec], [complete], [cost]).
+
+    CLAUSE MAP (statement of C14 in properties.jsonl, clause by clause)
+    1  "for every finite cost matrix, square or rectangular, with ties, negative or boolean entries, the solver returns"
+         C14_terminates, C14_steps_never_fail, C14_total_correct: every rectangular Z-matrix of every shape (incl. tall:
+         the transposition is inside [lsa_fuel]; zero-dimensional).  Boolean entries: astype(int) -> 0/1 integers (the
+         cast itself and binary64 entries: only correspondence, bool and dyadic streams).
+    2  "min(rows, columns) pairs, no row or column repeated, rows in increasing order"
+         C14_cert_sound ([lsa_spec]: [complete], strictly increasing rows) via C14_correct / C14_total_correct.
+    3  "total cost equals the minimum over all complete assignments"
+         C14_certificate_optimal (LP duality, rectangular case), C14_cert_sound, C14_total_correct.
+    4  "the reduced matrix is non-negative, zero on the chosen pairs, differs from the input only by a constant per
+        row and per column, so every optimal assignment lies on its zeros"
+         C14_cert_sound (all four parts of [lsa_spec]), C14_step_preserves_invariant, C14_total_correct.
+    5  "non-finite or non-numeric matrices are refused"
+         C14_refuses_nonfinite (inf, -inf, nan, ragged -> ValueError), C14_finite_reaches_solver,
+         C14_validated_entry_correct.  Non-numeric dtypes, 1-d / 3-d / scalar input: only correspondence/oracle
+         (refusal stream; numpy's asarray/dtype lattice is not modelled).
+    Entry points and options (observe_at): return_cost=True is the model; return_cost omitted/False, nested-list
+    input, the name qcelemental.util.linear_sum_assignment vs the defining module, a repeated call (history), and
+    "the caller's matrix is not modified": only correspondence/oracle (variant calls on every matrix of every stream).
+    The theorems are about the model; that the implementation follows it step by step is the state-trace
+    correspondence of every run (C14_traced_run_is_lsa ties the digest-carrying run to [lsa]). *)
 From Coq Require Import ZArith List Bool Arith Sorted.
 Require Import QV.Common.Outcome QV.Model.Hungarian QV.Proofs.HungarianCert QV.Proofs.HungarianInv
   QV.Proofs.HungarianFinal QV.Proofs.HungarianTotal QV.Proofs.HungarianTerm QV.Proofs.HungarianTrace.
